@@ -111,13 +111,13 @@ def run(ctx):
             camp.sh.maybe_flush()
         # recursive formats (LazyBound) and the list adapters (Indexing / Slicing): every short input, and long chains
         from .. import universes as U
-        for prog, kw, vals in U.recursive_programs() + U.list_adapter_programs():
+        for prog, kw, vals in U.recursive_programs() + U.list_adapter_programs() + U.measuring_in_streams():
             con = campaign.realizable(prog)
             if con is None:
                 continue
-            for n in range(0, 5 if quick else 6):
+            for n in range(0, 7 if quick else 8):
                 for t in itertools.product((0, 1, 2, 3), repeat=n):
-                    if n <= 2 or not quick or rng.random() < 0.25:
+                    if n <= 2 or (n <= 5 and not quick) or rng.random() < (0.25 if n <= 4 else 0.02):
                         camp.parse(prog, con, bytes(t), 0, kw, tag="rec")
                         nt += 1
             for v in vals:
@@ -158,8 +158,9 @@ def run(ctx):
                 return False                       # fault runs are judged by outcome (C06Fault), not by operation alignment
             if c["op"] != "parse":
                 return False
-            # acceptance vs rejection, and the class of the rejection, of a parse
-            return k in ("out-status", "result:result-status") or k in common.ERRCLASS_KINDS
+            # acceptance vs rejection, and the class of the rejection, of a parse: at the first event that differs, or -- whatever differs
+            # first -- in the result the caller sees
+            return k in ("out-status", "result:result-status") or k in common.ERRCLASS_KINDS or v.get("rd") in ("result-status", "result-errclass")
         campaign.judge(ctx, camp, vs, conformance=conf, clauses=CLAUSES)
         cvs = campaign.validate_cam(camp)
         # only-construct-errors concerns parsing, and builds under a stream fault
